@@ -38,7 +38,20 @@ def generate(prop, seed):
     n = {'paced': rng.choice([1, 1, 2, 3])}.get(mode, rng.choice([1, 2, 2, 3, 4, 6, 8]))
     streams = []
     nreads = rng.randint(3, 14)
-    if mode == 'paced':
+    stall = None
+    if mode == 'paced' and rng.random() < 0.4:
+        # a stalled thread (fault): equal amounts in slots G = 4 amount/R apart;
+        # the thread making the consume of one slot is stalled, at its first
+        # scheduling point inside LeakyBucket.consume, from its slot until the
+        # middle of the gap after the NEXT slot (another stream's), so every two
+        # consumes are still >= 2 amount/R apart and nothing may be delayed
+        n = rng.choice([2, 2, 3])
+        amt = thr * rng.randint(1, 3)
+        G = 4.0 * amt / R
+        slots = [((i + 1) * G, amt) for i in range(nreads * n)]
+        k = rng.randrange(len(slots) - 1)
+        stall = {'slot': k, 'duration': 1.5 * G}
+    elif mode == 'paced':
         # global slot schedule: consecutive consumes (by anybody) are at least
         # amount/R * (1 + margin) apart, so demand stays below the limit
         t = 0.0
@@ -47,6 +60,7 @@ def generate(prop, seed):
             amt = thr * rng.randint(1, 3)
             t += amt / R * (1.0 + rng.choice([0.01, 0.05, 0.3, 2.0]))
             slots.append((t, amt))
+    if mode == 'paced':
         for si in range(n):
             prog = [['at', tm, amt] for k, (tm, amt) in enumerate(slots) if k % n == si]
             streams.append({'prog': prog, 'toggle': None})
@@ -99,6 +113,7 @@ def generate(prop, seed):
         if mode == 'recover':
             groups[-1] = k
     return {'groups': groups, 'mode': mode, 'R': R, 'threshold': thr, 'streams': streams,
+            'stall': stall,
             'overshoot': 0.0 if mode == 'paced' else rng.choice([0.0, 0.0, 0.1, 1.0, 2.0]),
             'epoch': 1000.0 if mode == 'paced' else rng.choice([1000.0, 0.0, 1.7e9]),
             'strategy': gen_strategy(rng, 200), 'sched_seed': rng.randrange(1 << 62),
@@ -131,7 +146,8 @@ def execute(sc, choices=None, lenient=False):
     thr = sc['threshold']
     violations = []
     deliveries = []        # (time, stamp, stream, bytes)
-    info = {'sleeps': 0, 'abandons': 0, 'consumes': 0, 'scheduled': 0, 'toggles': 0}
+    info = {'sleeps': 0, 'abandons': 0, 'consumes': 0, 'scheduled': 0, 'toggles': 0,
+            'stalls': 0}
     ledger = {}            # token -> (amt, stream index)
     tok_stream = {}
     ctx = {}               # tid -> {'stream': i, 'in_read': bool, 'sleeps_this_read': n}
@@ -198,6 +214,11 @@ def execute(sc, choices=None, lenient=False):
                 if c is not None:
                     c['consume_begin'] = sim.stamp()
                 info['consumes'] += 1
+                if c is not None and c.get('stall'):
+                    # fault: this thread is descheduled at its first scheduling
+                    # point inside consume() while time and the others go on
+                    sim.stall_at_next_point(c.pop('stall'))
+                    info['stalls'] += 1
                 return real_consume(amt, token)
             bucket.consume = consume
 
@@ -215,8 +236,11 @@ def execute(sc, choices=None, lenient=False):
                     if step[0] == 'at':
                         wait = (t0 + step[1]) - sim.now
                         if wait > 0:
-                            sim.sleep(wait)
+                            real_sleep(wait)
                         amt = step[2]
+                        stl = sc.get('stall')
+                        if stl and k * len(sc['streams']) + si == stl['slot']:
+                            c['stall'] = stl['duration']
                     else:
                         if step[1] > 0:
                             sim.sleep(step[1])
@@ -404,6 +428,7 @@ def execute(sc, choices=None, lenient=False):
                         'abandoned-while-waiting': [
                             sum(1 for s in sc['streams'] if s.get('abandon')), info['abandons']],
                         'late-wakeup': [1 if over else 0] * 2,
+                        'stalled-thread': [1 if sc.get('stall') else 0, sim.stalls],
                         'transferring-toggle': [info['toggles']] * 2},
         'probes': {'deliveries': len(deliveries), 'scheduled': info['scheduled'],
                    'mode.' + sc['mode']: 1},
